@@ -97,7 +97,10 @@ class _Writer:
                 self._ctl.writers.remove(self)
 
     def fileno(self):
-        return self._f.fileno()
+        # no descriptor-level shortcuts (os.sendfile, copy_file_range ...):
+        # every byte has to pass through write(), where the yield points are
+        import io
+        raise io.UnsupportedOperation("fileno")
 
     def writable(self):
         return True
